@@ -62,6 +62,15 @@ func init() {
 			if hasNilSlice(g) && c.rng.Intn(2) == 0 {
 				g = orb.Point{1, 2}
 			}
+			if c.rng.Intn(9) == 0 {
+				// a box whose corners are given the other way round in one coordinate or both (a box written across the
+				// antimeridian, top and bottom swapped): still the box of its two projected corners
+				b := orb.Bound{Min: orb.Point{float64(c.rng.Intn(50)), float64(c.rng.Intn(50))}, Max: orb.Point{float64(c.rng.Intn(50)), float64(c.rng.Intn(50))}}
+				g = b
+				if c.rng.Intn(2) == 0 {
+					g = orb.Collection{orb.Point{3, 4}, b}
+				}
+			}
 			in, _ := encGeom(g, intFn)
 			e := map[string]interface{}{"k": "map", "in": in, "nt": 1}
 			calls := 0
@@ -259,7 +268,20 @@ func init() {
 						l.Features, l.Extent = feats, ext
 					}
 				}
-				if len(layers) == 1 && c.rng.Intn(2) == 0 {
+				if c.rng.Intn(4) == 0 {
+					// the way back through other Layer objects: each has just projected something else to this very tile and
+					// is then handed the lon/lat features (a layer that is refilled and projected again, with no projection
+					// to WGS84 in between)
+					layers.ProjectToWGS84(tile)
+					for _, l := range layers {
+						back := mvt.NewLayer(l.Name, geojson.NewFeatureCollection().Append(geojson.NewFeature(orb.Point{1, 2})))
+						back.Extent = l.Extent
+						back.ProjectToTile(tile)
+						back.Features = l.Features
+						back.ProjectToTile(tile)
+						l.Features = back.Features
+					}
+				} else if len(layers) == 1 && c.rng.Intn(2) == 0 {
 					layers[0].ProjectToWGS84(tile)
 					layers[0].ProjectToTile(tile)
 				} else {
